@@ -2,6 +2,8 @@
 from collections import deque
 
 from harness import impl
+from harness import execdrv as X
+from harness import execprops as EP
 from harness.impl import OST, OST_IDX, World, all_dags, random_dag, enc_pipes, enc_list, err_code
 
 ID = 'C02'
@@ -72,7 +74,48 @@ def drive(recipe):
     return dict(kind=KIND_LIFE, inp=inp, obs=out, recipe=recipe, gen=recipe.get('gen')), hits
 
 
+EXEC_MASK = X.M_STATES | X.M_LISTS | X.M_COUNTS
+
+
+def exec_monitor(run):
+    """finality and single ownership in executor histories"""
+    done = set()
+    for t, e in enumerate(run.trace):
+        for sts in (e.get('pre_states'), e.get('states')):
+            if not sts:
+                continue
+            for o in done:
+                if sts[o] != Cc:
+                    yield f'tick {t}: completed operator {o} changed state to {OST[sts[o]].value}'
+            done |= {i for i, x in enumerate(sts) if x == Cc}
+        if e['err']:
+            continue
+        for a in e['cmd']['asg']:
+            for o in a[0]:
+                if t > 0 and 0 <= o < len(run.trace[t - 1]['states']) and run.trace[t - 1]['states'][o] == Cc:
+                    yield f'tick {t}: completed operator {o} was handed to a container again'
+        owner = {}
+        for pi, p in enumerate(e['pools']):
+            for c in p['active'] + p['suspending']:
+                for o in c['ops'][c['opidx']:]:
+                    if o in owner:
+                        yield f'tick {t}: operator {o} belongs to live containers {owner[o]} and {c["cid"]}'
+                    owner[o] = c['cid']
+        for i, x in enumerate(e['states']):
+            if x in (A, R, S) and i not in owner:
+                yield f'tick {t}: operator {i} is {OST[x].value} but belongs to no live container'
+        for k, cnt in enumerate(e['counts']):
+            first = run.w.first[k]
+            n = len(run.r['pipes'][k][1])
+            hist = [sum(1 for i in range(first, first + n) if e['states'][i] == s_) for s_ in range(6)]
+            if cnt != hist:
+                yield f'tick {t}: pipeline {k} state_counts {cnt} differ from the histogram {hist}'
+
+
 def replay(recipe):
+    if 'ticks' in recipe:
+        case, hits, _ = EP.drive(recipe, EXEC_MASK, exec_monitor, 'lifecycle')
+        return case, hits
     return drive(recipe)
 
 
@@ -152,10 +195,14 @@ def run(ctx):
         cases.append(c)
         hits += h
         dist['random_histories'] += 1
+    ex = EP.run_property(ctx, EXEC_MASK, exec_monitor, 'lifecycle', [('G-exec', 150, 3000, dict(p_bad=0.5))])
+    cases += ex['cases']
+    hits += ex['hits']
+    dist['executor'] = ex['dist']
     return dict(cases=cases, hits=hits, dist=dist, exhaustive=True,
                 distinct_nontrivial=dist['accepted'] + dist['refused'],
                 rule=f'every DAG on <= {nmax} operators x every status vector reachable on the implementation x '
                      'every (operator, target state) request (the whole transition relation), re-established on a '
-                     'fresh pipeline by a shortest path; plus random request histories on 1-3 pipelines. '
+                     'fresh pipeline by a shortest path; plus random request histories on 1-3 pipelines; executor command histories (G-exec) with states, counts and container lists per tick. '
                      'non-trivial = distinct (shape, vector, request) triples',
                 samples=[cases[0]['recipe'], cases[len(cases) // 2]['recipe'], cases[-1]['recipe']])
